@@ -445,3 +445,167 @@ Lemma loss_overflow_refuted :
   createLossItvls (bytesOf "u99999999999999999999d1")
     = Ok [{| l_dur := 7766279631452241919; l_state := LNo |}; {| l_dur := 1; l_state := L404 |}].
 Proof. split; vm_compute; reflexivity. Qed.
+
+(** * The parser with the range check (proposed_fixes/C14-loss-duration-range.diff) *)
+
+Section Bounded.
+Variable mx : Z.
+Hypothesis mx_pos : 0 < mx.
+Hypothesis mx_small : mx * 10 + 9 < two63.
+
+Lemma lossLoopB_digit d rest st dur acc : 0 <= d <= 9 -> 0 <= dur -> dur * 10 + d <= mx ->
+  lossLoopB mx ((48 + d) :: rest) st dur acc = lossLoopB mx rest st (dur * 10 + d) acc.
+Proof.
+  intros Hd Hdur Hb. cbn [lossLoopB]. rewrite letterState_digit by assumption.
+  replace ((48 + d - 48) mod 256) with d by lia.
+  destruct (d >? 9) eqn:E; [lia|]. rewrite i64_id by (unfold two63 in *; lia).
+  destruct (dur * 10 + d >? mx) eqn:E2; [lia|reflexivity].
+Qed.
+
+Lemma lossLoopB_itoa fuel : forall n accS rest st acc,
+  0 <= n <= mx -> n < 10 ^ Z.of_nat fuel ->
+  lossLoopB mx (bytesOf (itoaFuel fuel n accS) ++ rest) st 0 acc = lossLoopB mx (bytesOf accS ++ rest) st n acc.
+Proof.
+  induction fuel as [|fuel IH]; intros n accS rest st acc Hn Hf.
+  - cbn [itoaFuel]. change (10 ^ Z.of_nat 0) with 1 in Hf. now replace n with 0 by lia.
+  - cbn [itoaFuel].
+    assert (Hm : 0 <= n mod 10 <= 9) by lia.
+    destruct (n <? 10) eqn:E.
+    + rewrite bytesOf_String, byteOf_digit by assumption. cbn [app].
+      rewrite lossLoopB_digit by (try assumption; lia). f_equal. lia.
+    + rewrite IH.
+      * rewrite bytesOf_String, byteOf_digit by assumption. cbn [app].
+        rewrite lossLoopB_digit by (try lia). f_equal. lia.
+      * lia.
+      * rewrite Nat2Z.inj_succ, Z.pow_succ_r in Hf by lia. lia.
+Qed.
+
+Lemma lossLoopB_print_dur n rest st acc : 0 < n <= mx ->
+  lossLoopB mx (bytesOf (itoa n) ++ rest) st 0 acc = lossLoopB mx rest st n acc.
+Proof.
+  intros Hn. unfold itoa. destruct (n <? 0) eqn:E; [lia|].
+  rewrite lossLoopB_itoa by (try lia; apply pow10_log2; lia). reflexivity.
+Qed.
+
+(** an interval the repaired parser can produce *)
+Definition boundedItvl (i : litvl) : Prop := 0 < l_dur i <= mx /\ l_state i <> LUnknown.
+
+Lemma lossLoopB_print l : forall st dur acc,
+  Forall boundedItvl l -> (st = LUnknown \/ dur <> 0) ->
+  lossLoopB mx (printItvls l) st dur acc =
+  Ok (acc ++ (if lstate_eqb st LUnknown then [] else [{| l_dur := dur; l_state := st |}]) ++ l).
+Proof.
+  induction l as [|i l IH]; intros st dur acc Hg Hst.
+  - cbn [printItvls flat_map lossLoopB]. destruct (lstate_eqb st LUnknown) eqn:E.
+    + now rewrite !app_nil_r.
+    + destruct Hst as [->|Hd]; [discriminate|]. destruct (dur =? 0) eqn:E0; [lia|]. now rewrite app_nil_r.
+  - inversion Hg as [|? ? [Hd Hs] Hl]; subst.
+    unfold printItvls. cbn [flat_map]. fold (printItvls l). unfold printItvl. cbn [app lossLoopB].
+    rewrite letter_of_state by assumption.
+    destruct (lstate_eqb st LUnknown) eqn:E.
+    + rewrite lossLoopB_print_dur by assumption. rewrite IH by (try assumption; right; lia).
+      destruct (lstate_eqb (l_state i) LUnknown) eqn:E2; [apply lstate_eqb_unknown in E2; contradiction|].
+      destruct i; reflexivity.
+    + destruct Hst as [->|Hdur]; [discriminate|]. destruct (dur =? 0) eqn:E0; [lia|].
+      rewrite lossLoopB_print_dur by assumption. rewrite IH by (try assumption; right; lia).
+      destruct (lstate_eqb (l_state i) LUnknown) eqn:E2; [apply lstate_eqb_unknown in E2; contradiction|].
+      rewrite <- app_assoc. destruct i; reflexivity.
+Qed.
+
+Lemma sumDur_le l : Forall boundedItvl l -> sumDur l <= lenZ l * mx.
+Proof.
+  induction 1 as [|i l [Hi _] _ IH]; [cbn; lia|].
+  cbn [sumDur fold_right]. fold (sumDur l). rewrite lenZ_cons. lia.
+Qed.
+
+Lemma bounded_pos l : Forall boundedItvl l -> Forall (fun i => 0 < l_dur i) l.
+Proof. induction 1 as [|i l [Hi _] _ IH]; constructor; [lia|assumption]. Qed.
+
+(** Round trip with the range check: what is written with durations 1..mx is read back. *)
+Lemma createLossItvlsB_print l : Forall boundedItvl l -> l <> [] -> sumDur l < two63 ->
+  createLossItvlsB mx (printItvls l) = Ok l.
+Proof.
+  intros H Hne Hs. unfold createLossItvlsB. rewrite lossLoopB_print by (try assumption; now left).
+  cbn [lstate_eqb app bind]. pose proof (bounded_pos l H) as Hp.
+  rewrite cycleDurS_sum by (split; assumption). pose proof (sumDur_pos l Hp Hne).
+  destruct (sumDur l <=? 0) eqn:E; [lia|reflexivity].
+Qed.
+
+(** Everything the loop produces is bounded, and it produces at most one interval per byte (+1). *)
+Lemma lossLoopB_inv p : forall st dur acc l,
+  lossLoopB mx p st dur acc = Ok l -> 0 <= dur <= mx -> Forall boundedItvl acc ->
+  Forall boundedItvl l /\ lenZ l <= lenZ acc + lenZ p + 1.
+Proof.
+  induction p as [|ch p IH]; intros st dur acc l H Hdur Hacc; cbn [lossLoopB] in H.
+  - change (lenZ (@nil Z)) with 0. destruct (lstate_eqb st LUnknown) eqn:E.
+    + injection H as <-. split; [assumption|lia].
+    + destruct (dur =? 0) eqn:E0; [discriminate|]. injection H as <-.
+      assert (st <> LUnknown) by (intros ->; discriminate).
+      split; [apply Forall_app; split; [assumption|constructor; [split; [cbn; lia|assumption]|constructor]]|].
+      rewrite lenZ_app. change (lenZ [_]) with 1. lia.
+  - rewrite lenZ_cons. destruct (letterState ch) as [st'|] eqn:El.
+    + destruct (lstate_eqb st LUnknown) eqn:E.
+      * apply IH in H; [|lia|assumption]. destruct H as [H1 H2]. split; [assumption|lia].
+      * destruct (dur =? 0) eqn:E0; [discriminate|].
+        assert (st <> LUnknown) by (intros ->; discriminate).
+        apply IH in H; [|lia|apply Forall_app; split; [assumption|constructor; [split; [cbn; lia|assumption]|constructor]]].
+        destruct H as [H1 H2]. split; [assumption|]. rewrite lenZ_app in H2. change (lenZ [_]) with 1 in H2. lia.
+    + destruct ((ch - 48) mod 256 >? 9) eqn:Ed; [discriminate|].
+      assert (Hv : i64 (dur * 10 + (ch - 48) mod 256) = dur * 10 + (ch - 48) mod 256)
+        by (apply i64_id; unfold two63 in *; lia).
+      rewrite Hv in H.
+      destruct (dur * 10 + (ch - 48) mod 256 >? mx) eqn:Eb; [discriminate|].
+      apply IH in H; [|lia|assumption]. destruct H as [H1 H2]. split; [assumption|lia].
+Qed.
+
+(** C14_loss_parse_bounded: every accepted pattern has all durations within 1..mx. *)
+Lemma createLossItvlsB_bounded p l : createLossItvlsB mx p = Ok l ->
+  Forall boundedItvl l /\ l <> [] /\ lenZ l <= lenZ p + 1.
+Proof.
+  unfold createLossItvlsB. destruct (lossLoopB mx p LUnknown 0 []) as [l'| |] eqn:EL; cbn [bind]; try discriminate.
+  destruct (cycleDurS l' <=? 0) eqn:Ec; [discriminate|]. intros H. injection H as <-.
+  apply lossLoopB_inv in EL; [|lia|constructor]. destruct EL as [H1 H2]. change (lenZ (@nil litvl)) with 0 in H2.
+  split; [assumption|]. split; [intros ->; cbn in Ec; discriminate|lia].
+Qed.
+
+(** C14_loss_no_overflow: for a pattern whose length keeps (length+1)*mx inside int64 (with
+    mx = 2^31-1: any pattern shorter than 2^32 bytes) neither the cycle nor the arithmetic of
+    StateAt can wrap: the cycle is the exact sum and StateAt is the flattened pattern. *)
+Lemma createLossItvlsB_no_overflow p l s : createLossItvlsB mx p = Ok l ->
+  (lenZ p + 1) * mx < two63 -> 0 <= s ->
+  goodItvls l /\ l <> [] /\ cycleDurS l = sumDur l /\ 0 < sumDur l <= (lenZ p + 1) * mx /\
+  stateAt l s = Ok (nth (Z.to_nat (s mod sumDur l)) (flatten l) LUnknown).
+Proof.
+  intros H Hlen Hs. apply createLossItvlsB_bounded in H. destruct H as (Hb & Hne & Hl).
+  pose proof (sumDur_le l Hb) as Hsum. pose proof (bounded_pos l Hb) as Hp.
+  pose proof (lenZ_nonneg l).
+  assert (Hg : goodItvls l) by (split; [assumption|nia]).
+  split; [assumption|]. split; [assumption|]. split; [now apply cycleDurS_sum|].
+  pose proof (sumDur_pos l Hp Hne). split; [nia|].
+  exact (proj1 (stateAt_spec l s Hg Hne Hs)).
+Qed.
+
+End Bounded.
+
+(** with the bound of the source, 2^31-1 s: any pattern shorter than 2^32 bytes *)
+Lemma parse_no_overflow p l s : createLossItvlsB maxLossItvlDur p = Ok l -> lenZ p + 1 <= two32 -> 0 <= s ->
+  Forall (boundedItvl maxLossItvlDur) l /\ goodItvls l /\ l <> [] /\ cycleDurS l = sumDur l /\
+  stateAt l s = Ok (nth (Z.to_nat (s mod sumDur l)) (flatten l) LUnknown).
+Proof.
+  intros H Hlen Hs.
+  assert (H1 : 0 < maxLossItvlDur) by reflexivity.
+  assert (H2 : maxLossItvlDur * 10 + 9 < two63) by reflexivity.
+  pose proof (createLossItvlsB_bounded maxLossItvlDur H1 H2 p l H) as (Hb & _ & _).
+  pose proof (lenZ_nonneg p).
+  destruct (createLossItvlsB_no_overflow maxLossItvlDur H1 H2 p l s H) as (A & B & C & _ & D);
+    [unfold maxLossItvlDur, two63, two32 in *; nia|assumption|].
+  exact (conj Hb (conj A (conj B (conj C D)))).
+Qed.
+
+(** the overflow inputs are refused by the repaired parser *)
+Lemma loss_overflow_rejected :
+  createLossItvlsB maxLossItvlDur (bytesOf "u18446744073709551617") = Err "invalid loss pattern: interval too long" /\
+  createLossItvlsB maxLossItvlDur (bytesOf "u99999999999999999999d1") = Err "invalid loss pattern: interval too long" /\
+  createLossItvlsB maxLossItvlDur (bytesOf "u2147483648") = Err "invalid loss pattern: interval too long" /\
+  createLossItvlsB maxLossItvlDur (bytesOf "u2147483647d1") = Ok [{| l_dur := 2147483647; l_state := LNo |}; {| l_dur := 1; l_state := L404 |}].
+Proof. repeat split; vm_compute; reflexivity. Qed.
